@@ -1639,7 +1639,7 @@ def mutants():
           "            self.stream.unget(data)\n            self.state = self.afterAttributeValueState\n        return True\n\n    def selfClosingStartTagState", "C03.3"),
         T("tok-eof-loop", "_tokenizer.py", "        elif data is EOF:\n            self.tokenQueue.append({\"type\": tokenTypes[\"ParseError\"], \"data\":\n                                    \"eof-in-tag-name\"})\n            self.state = self.dataState",
           "        elif data is EOF:\n            self.tokenQueue.append({\"type\": tokenTypes[\"ParseError\"], \"data\":\n                                    \"eof-in-tag-name\"})", "C03.3"),
-        T("frameset-keeps-body-on-stack", "html5parser.py", "            while self.tree.openElements[-1].name != \"html\":\n                self.tree.openElements.pop()\n            self.tree.insertElement(token)\n            self.parser.phase = self.parser.phases[\"inFrameset\"]",
+        T("frameset-keeps-body-on-stack", "html5parser.py", "            while (self.tree.openElements[-1].namespace != self.tree.defaultNamespace or\n                   self.tree.openElements[-1].name != \"html\"):\n                self.tree.openElements.pop()\n            self.tree.insertElement(token)\n            self.parser.phase = self.parser.phases[\"inFrameset\"]",
           "            del self.tree.openElements[2:]\n            self.tree.insertElement(token)\n            self.parser.phase = self.parser.phases[\"inFrameset\"]", "C03.7"),
         T("none-deref", "treebuilders/base.py", "            if lastTable.parent:\n                fosterParent = lastTable.parent", "            if lastTable.parent or fosterParent.parent:\n                fosterParent = lastTable.parent", "C03.8"),
         T("cdata-no-eof-exit", "_tokenizer.py", "            if char == EOF:\n                break\n            else:\n                assert char == \">\"", "            if False:\n                break\n            else:\n                pass", "C03.3"),
@@ -1668,7 +1668,7 @@ def preserving():
     return [
         T("loop-instead", "html5parser.py", '            node = self.tree.openElements.pop()\n            while node.name != "select":\n                node = self.tree.openElements.pop()\n',
           '            while self.tree.openElements.pop().name != "select":\n                pass\n', None),
-        T("frameset-del-slice", "html5parser.py", "            while self.tree.openElements[-1].name != \"html\":\n                self.tree.openElements.pop()\n            self.tree.insertElement(token)\n            self.parser.phase = self.parser.phases[\"inFrameset\"]",
+        T("frameset-del-slice", "html5parser.py", "            while (self.tree.openElements[-1].namespace != self.tree.defaultNamespace or\n                   self.tree.openElements[-1].name != \"html\"):\n                self.tree.openElements.pop()\n            self.tree.insertElement(token)\n            self.parser.phase = self.parser.phases[\"inFrameset\"]",
           "            del self.tree.openElements[1:]\n            self.tree.insertElement(token)\n            self.parser.phase = self.parser.phases[\"inFrameset\"]", None),
         T("prescan-setter-not-lt", "_inputstream.py", "    def setPosition(self, position):\n        if self._position >= len(self):",
           "    def setPosition(self, position):\n        if not self._position < len(self):", None),
